@@ -49,7 +49,7 @@ EXPECTED_PROBES = ["fault_before_first_attr", "fault_in_write_skip_metadata",
                    "write_once_refused", "stragglers_at_raise", "recovery_save_ok",
                    "hardlinked_foreign_file", "hardlinked_snapshot_of_saved_object",
                    "target_is_symlink_to_object", "fault_is_keyboard_interrupt",
-                   "dotdot_in_target_sub", "dotdot_in_target_lnk"]
+                   "dotdot_in_target_sub", "dotdot_in_target_lnk", "warnings_as_errors"]
 # thorough tier only: "sweep_exhaustive" / "sweep_strided" count how many workloads were swept over
 # EVERY fault position and how many (more than 700 store positions) over a stride
 
@@ -131,6 +131,9 @@ def gen(rng: Rng, tier, i):
             # the harness hard-links the object's file(s) into a snapshot outside the target.  A save
             # that rewrites an existing file in place instead of unlinking it alters those paths.
             "hardlinks": rng.fork("hardlinks").chance(0.35),
+            # warnings escalated to errors while save() runs (python -W error::RuntimeWarning, pytest's
+            # filterwarnings=error): the state of the warning filters is part of the environment
+            "warnings_as_errors": rng.fork("warn").pick([None, None, None, "runtime", "runtime+user"]),
             "unpicklable": unpick, "positions": f"sample:{n_pos}" if n_pos != "all" else "all",
             "env": serio.gen_env(rng.fork("env")), "pos_seed": rng.randrange(2 ** 32)}
 
@@ -285,6 +288,11 @@ def _execute(plan, focus_fault, rec_counts=None, refs=None, keep_log=True):
            "sig": None}
     recording = refs is None
     with serio.SerEnv(plan["env"], keep_log=keep_log) as E:
+        wae = plan.get("warnings_as_errors")
+        wae_cats = None
+        if wae:
+            wae_cats = [RuntimeWarning] + ([UserWarning] if "user" in wae else [])
+            bump(out["probes"], "warnings_as_errors")
         final_name = _final_path(plan)
         tgt_final = os.path.join(E.work, final_name)
         _setup_pre(E, plan, tgt_final)
@@ -332,7 +340,11 @@ def _execute(plan, focus_fault, rec_counts=None, refs=None, keep_log=True):
             pre_hash = simstore.tree_hash(tgt_final)
             others_before = _others_hash(E, tgt_final)
             n_sig0 = len(E.sim.completion_sig)
-            _, exc, sc = E.save(obj, path_arg, armed=armed, **kw)
+            E.warnings_as_errors = wae_cats       # for the save under test only, not for oracle loads
+            try:
+                _, exc, sc = E.save(obj, path_arg, armed=armed, **kw)
+            finally:
+                E.warnings_as_errors = None
             del obj
             out["counts"].append({k: sc[k] for k in ("store", "zip_write", "ser", "makedirs",
                                                      "tempdir", "zip_open", "zip_close")})
@@ -702,6 +714,8 @@ def shrink(plan):
             yield p
     if plan.get("hardlinks"):
         yield {**plan, "hardlinks": False}
+    if plan.get("warnings_as_errors"):
+        yield {**plan, "warnings_as_errors": None}
     if plan["pre"] != "absent":
         p = copy.deepcopy(plan)
         p["pre"] = "absent"
